@@ -119,3 +119,18 @@ pub fn qualifier_supported(x: u8) -> bool {
 pub fn function_code_supported(x: u8) -> bool {
     x <= 30u8 || x == 129u8 || x == 130u8
 }
+
+/// bytes of object data behind a start/stop object header of `count` objects (non-READ fragment):
+/// variation 0 ("any variation") designates objects without carrying data; g1v1, g10v1, g80v1 are packed single
+/// bits, g3v1 packed double bits; everything else is `count` fixed-size objects.
+pub fn ranged_objects_len(group: u8, var: u8, count: usize) -> usize {
+    if var == 0u8 {
+        0usize
+    } else if var == 1u8 && (group == 1u8 || group == 10u8 || group == 80u8) {
+        packed_bits_len(count)
+    } else if var == 1u8 && group == 3u8 {
+        packed_double_bits_len(count)
+    } else {
+        (object_size(group, var) * count) as usize
+    }
+}
